@@ -14,6 +14,7 @@ from ..cfg import cfg_of, literals
 from ..dataflow import Defs, calls_in, stmt_of
 from ..index import AnalysisError, call_name, dotted, enclosing, head, norm, walk_body
 from ..ordering import describe, evaluate, parse_pred, weak_orderings
+from ..pattern import find as pfind, has_fact, local_defined_as, pmatch
 from ..rules import COMPOUND, kw, node_calls, own_calls
 from ..witness import W
 from . import c11
@@ -51,9 +52,14 @@ def _loader_skip(repo):
     f = repo.func("StorageBackend.loader", COMMON)
     cfg = cfg_of(f)
     for n in cfg.stmt_nodes():
-        if isinstance(n.stmt, ast.If) and any(isinstance(x, ast.Continue) for x in n.stmt.body) and "time_range" in norm(n.stmt.test) and "chunk_info" in norm(n.stmt.test):
-            facts = cfg.guard_facts(n)
-            return f, n.stmt, facts
+        if isinstance(n.stmt, ast.If) and any(isinstance(x, ast.Continue) for x in n.stmt.body) and "time_range[" in norm(n.stmt.test):
+            lp = enclosing(n.stmt, (ast.For,))
+            ci = None
+            if lp is not None and isinstance(lp.target, ast.Tuple) and "iter_chunk_meta" in norm(lp.iter):
+                ci = norm(lp.target.elts[1])
+            if ci and f"{ci}[" in norm(n.stmt.test):
+                facts = cfg.guard_facts(n)
+                return f, n.stmt, facts, ci
     raise AnalysisError("C10.R1: chunk-pruning test in StorageBackend.loader not found")
 
 
@@ -72,12 +78,12 @@ def _row_predicates(repo):
 
 def r1_pruning(chk, repo):
     chk.describe("C10.R1", "chunk pruning equals `no overlap with the range`, never drops a chunk containing a selected row (both modes), and the row predicates equal their definitions - on every weak ordering")
-    lf, skip_if, facts = _loader_skip(repo)
+    lf, skip_if, facts, CI = _loader_skip(repo)
     chk.check(("time_range", True) in facts, "C10.R1", lf, skip_if, "pruning is applied without a time range", site_text="loader: pruning only under `if time_range`", nontrivial=False)
     skip = skip_if.test
     sf, scfg, preds = _row_predicates(repo)
     chk.check(set(preds) >= {"fully_contained", "touching"}, "C10.R1", sf, None, f"row predicates for fully_contained / touching not found (found {sorted(preds)})", site_text="apply_selection: both time-selection modes present")
-    sym_chunk = {"chunk_info['start']": "cs", "chunk_info['end']": "ce", "time_range[0]": "lo", "time_range[1]": "hi"}
+    sym_chunk = {f"{CI}['start']": "cs", f"{CI}['end']": "ce", "time_range[0]": "lo", "time_range[1]": "hi"}
     sym_row = {"x['time']": "t", "strax.endtime(x)": "e", "time_range[0]": "lo", "time_range[1]": "hi"}
     spec_skip = parse_pred("not (cs < hi and lo < ce)")
     spec = {"fully_contained": parse_pred("lo <= t and e <= hi"), "touching": parse_pred("lo < e and t < hi")}
@@ -120,15 +126,22 @@ def r3_r4_get_iter(chk, repo):
     chk.describe("C10.R4", "every yielded chunk went through apply_selection with the request's own selection, columns, time range and mode")
     gi = repo.func("Context.get_iter", CONTEXT)
     cfg = cfg_of(gi)
-    rs = [n for n in cfg.stmt_nodes() if isinstance(n.stmt, ast.Raise) and ("seen_a_chunk", False) in cfg.guard_facts(n) and enclosing(n.stmt, (ast.ExceptHandler,)) is None]
+    # the flag: a local set to False before the loop, tested with `not <flag>` at the end
+    SEEN = None
+    for n_, b in pfind(gi.node, "L_s = False"):
+        if any(isinstance(x, ast.If) and pmatch(f"not {b['L_s']}", x.test) is not None and any(isinstance(y, ast.Raise) for y in ast.walk(x)) for x in gi.node.body):
+            SEEN = b["L_s"]
+    chk.check(SEEN is not None, "C10.R3", gi, None, "no explicit error when the request returned no chunks", site_text="get_iter: `if not <seen a chunk>: raise` at the end")
+    SEEN = SEEN or "seen_a_chunk"
+    rs = [n for n in cfg.stmt_nodes() if isinstance(n.stmt, ast.Raise) and (SEEN, False) in cfg.guard_facts(n) and enclosing(n.stmt, (ast.ExceptHandler,)) is None]
     chk.check(len(rs) >= 2, "C10.R3", gi, None, "no explicit error when the request returned no chunks", site_text="get_iter: raise if not seen_a_chunk (with and without time range)")
-    tests = [n for n in cfg.stmt_nodes() if isinstance(n.stmt, ast.If) and norm(n.stmt.test) == "not seen_a_chunk"]
+    tests = [n for n in cfg.stmt_nodes() if isinstance(n.stmt, ast.If) and norm(n.stmt.test) == f"not {SEEN}"]
     ok = False
     for t in tests:
         okp, _ = cfg.every_path([cfg.entry], [cfg.exit_return], lambda n: n is t, "n")
         ok = ok or okp
     chk.check(ok, "C10.R3", gi, None, "a normal exit of get_iter bypasses the no-chunk test", site_text="get_iter: every normal exit passes the no-chunk test", site={"function": gi.qualname, "construct": "no-chunk test"})
-    sets = [n for n in cfg.stmt_nodes() if isinstance(n.stmt, ast.Assign) and norm(n.stmt.targets[0]) == "seen_a_chunk" and norm(n.stmt.value) == "True"]
+    sets = [n for n in cfg.stmt_nodes() if isinstance(n.stmt, ast.Assign) and norm(n.stmt.targets[0]) == SEEN and norm(n.stmt.value) == "True"]
     chk.check(bool(sets) and all(enclosing(n.stmt, (ast.For,)) is not None for n in sets), "C10.R3", gi, None, "seen_a_chunk is set outside the chunk loop", site_text="get_iter: seen_a_chunk set only inside the loop")
     ys = [n for n in cfg.stmt_nodes() if not isinstance(n.stmt, COMPOUND) and any(isinstance(x, ast.Yield) for x in ast.walk(n.stmt))]
     chk.floor("C10.R4", "yields in get_iter", len(ys), 1)
@@ -176,7 +189,7 @@ def r5_apply_time_range(chk, repo):
     rd = repo.func("StorageBackend._read_and_format_chunk", COMMON)
     rcfg = cfg_of(rd)
     ap = [n for n in rcfg.stmt_nodes() if isinstance(n.stmt, ast.Return) and "apply_time_range" in norm(n.stmt.value)]
-    chk.check(bool(ap) and all(("time_range", True) in rcfg.guard_facts(n) and norm(n.stmt.value) == "self.apply_time_range(chunk, time_range)" for n in ap), "C10.R5", rd, None, "loaded chunks are not trimmed to the requested range", site_text="_read_and_format_chunk: apply_time_range(chunk, time_range) when a range is given")
+    chk.check(bool(ap) and all(("time_range", True) in rcfg.guard_facts(n) and pmatch("self.apply_time_range(L_c, time_range)", n.stmt.value) is not None and bool(pfind(rd.node, f"{pmatch('self.apply_time_range(L_c, time_range)', n.stmt.value)['L_c']} = strax.Chunk(**___)")) for n in ap), "C10.R5", rd, None, "loaded chunks are not trimmed to the requested range", site_text="_read_and_format_chunk: apply_time_range(chunk, time_range) when a range is given")
 
 
 def r6_arguments(chk, repo):
@@ -193,12 +206,12 @@ def r6_arguments(chk, repo):
     rets = [n for n in walk_body(f.node) if isinstance(n, ast.Return)]
     chk.check(all(norm(r.value) == "x" for r in rets), "C10.R6", f, None, "apply_selection does not return the filtered array", site_text="apply_selection: returns x", nontrivial=False)
     ta = repo.func("Context.to_absolute_time_range", CONTEXT)
-    ints = [n for n in walk_body(ta.node) if isinstance(n, ast.Assign) and norm(n.targets[0]) == "time_range" and "int(x)" in norm(n.value)]
+    ints = [n for n, b in pfind(ta.node, "time_range = tuple([int(L_x) for L_x in time_range])")]
     chk.check(bool(ints), "C10.R6", ta, None, "time ranges are not converted to integers (float ns lose precision)", site_text="to_absolute_time_range: int() on both bounds")
     tw = [n for n in walk_body(ta.node) if isinstance(n, ast.Assign) and norm(n.targets[0]) == "time_range" and "time_within" in norm(n.value)]
     chk.check(bool(tw) and all(norm(n.value) == "(time_within['time'], strax.endtime(time_within))" for n in tw), "C10.R6", ta, None, "time_within is not converted to (time, endtime) of the row", site_text="to_absolute_time_range: time_within -> (time, endtime)")
     sr = [n for n in walk_body(ta.node) if isinstance(n, ast.Assign) and norm(n.targets[0]) == "time_range" and "seconds_range" in norm(n.value)]
-    chk.check(bool(sr) and all("t0 + int(1000000000.0 * seconds_range[0])" in norm(n.value) and "t0 + int(1000000000.0 * seconds_range[1])" in norm(n.value) for n in sr), "C10.R6", ta, None, "seconds_range is not converted relative to the run start on both bounds", site_text="to_absolute_time_range: t0 + 1e9 * seconds on both bounds")
+    chk.check(bool(sr) and all(pmatch("(L_t0 + int(1000000000.0 * seconds_range[0]), L_t0 + int(1000000000.0 * seconds_range[1]))", n.value) is not None for n in sr), "C10.R6", ta, None, "seconds_range is not converted relative to the run start on both bounds", site_text="to_absolute_time_range: t0 + 1e9 * seconds on both bounds")
 
 
 WITNESSES = [
